@@ -521,6 +521,64 @@ fn run_raw(c: &RawCase) -> CaseResult {
     })
 }
 
+// ---------------------------------------------------------------------------------------------
+// (c) the application's connection events against the connections that exist (real manager, scripted transport)
+
+fn run_manager_history(h: &crate::f3::History, avoid: bool) -> CaseResult {
+    use litep2p::verif::scripted::MgrEvent;
+    use std::cell::RefCell;
+    // per peer: does the application consider it connected (established seen, closed not yet)
+    let app: RefCell<BTreeMap<Vec<u8>, bool>> = RefCell::new(BTreeMap::new());
+    let overlapped = RefCell::new(false);
+    let closed_events = RefCell::new(0usize);
+    let w = crate::f3::run_history(
+        h,
+        avoid,
+        |w, rec| {
+            let mut app = app.borrow_mut();
+            for e in &rec.events {
+                match e {
+                    MgrEvent::Established { peer, id, .. } => {
+                        ensure!(w.truth.contains_key(id), "C07/application-established-for-a-connection-that-does-not-exist", "step {} ({}): connection {id}", rec.step, rec.op);
+                        app.insert(peer.to_bytes(), true);
+                    }
+                    MgrEvent::Closed { peer, .. } => {
+                        let was = app.insert(peer.to_bytes(), false).unwrap_or(false);
+                        ensure!(was, "C07/application-closed-without-established", "step {} ({}): peer {peer}", rec.step, rec.op);
+                        *closed_events.borrow_mut() += 1;
+                        let left = w.truth.values().filter(|(p, _)| p == peer).count();
+                        ensure!(left == 0, "C07/application-told-closed-while-a-connection-is-open", "step {} ({}): {left} connection(s) to {peer} are still open", rec.step, rec.op);
+                    }
+                    _ => {}
+                }
+            }
+            // after every step: the application considers a peer connected exactly when a connection to it exists
+            for (i, p) in w.peers.iter().enumerate() {
+                let n = w.truth.values().filter(|(q, _)| q == p).count();
+                if n >= 2 {
+                    *overlapped.borrow_mut() = true;
+                }
+                let considered = app.get(&p.to_bytes()).cloned().unwrap_or(false);
+                ensure!(
+                    considered == (n > 0),
+                    if considered { "C07/application-never-told-that-the-last-connection-closed" } else { "C07/connection-exists-that-the-application-was-not-told-about" },
+                    "step {} ({}): the application considers peer {i} {}, {n} connection(s) to it are open",
+                    rec.step,
+                    rec.op,
+                    if considered { "connected" } else { "disconnected" }
+                );
+            }
+            Ok(())
+        },
+        |_| Ok(()),
+    )?;
+    let mut ok = CaseOk::trivial();
+    ok.excluded = w.steered > 0;
+    let overlapped = overlapped.into_inner();
+    let closed = closed_events.into_inner();
+    Ok(ok.nt(overlapped && closed > 0).class_if(overlapped, "two-connections-to-one-peer").class_if(closed > 0, "application-told-closed"))
+}
+
 pub fn run(ctx: &mut Ctx) {
     ctx.rule = "(nodes) three real nodes over loopback TCP, each with a request-response protocol and two probe user protocols recording every TransportEvent; script of 2..9 ops: \
         connect, probe opens/holds/drops a substream, request, sleeps, termination causes (remote node killed, force_close from either side by either probe, idle expiry with a 400 ms \
@@ -538,4 +596,8 @@ pub fn run(ctx: &mut Ctx) {
     let avoid = (ctx.avoid(SIG_B) || ctx.avoid(SIG_H)) && ctx.is_generate();
     ctx.campaign("nodes", CampaignCfg::new(t.pick(320, 6_000)).shards(16).shrink_iters(6), strategy, move |c: &Case| run_case_with(c, avoid));
     ctx.campaign("channels", CampaignCfg::new(t.pick(30_000, 600_000)).shards(16), raw_strategy, run_raw);
+    let avoid_g = ctx.avoid(crate::props::c05::SIG_G) && ctx.is_generate();
+    ctx.campaign("manager-histories", CampaignCfg::new(t.pick(40_000, 2_000_000)).shards(16), || crate::f3::history_strategy(40, false, 8, false), move |h: &crate::f3::History| run_manager_history(h, avoid_g));
+    let depth = t.pick(4u32, 5);
+    ctx.enumerate_indexed("manager-small-scope-exhaustive", crate::f3::small_space_size(depth), 16, crate::f3::small_history, move |h: &crate::f3::History| run_manager_history(h, avoid_g));
 }
